@@ -89,7 +89,16 @@ fn main() {
                     "library is deterministic given device, clock and call sequence (re-execution sample checked on every run)".into(),
                 ],
                 "model_checking",
-                &|rep: &mut harness::report::Report| add_stdio(rep, "C02", &tier, 0, &["std-io/semantics", "std-io/content", "std-io/panic", "std-io/unmount", "std-io/remount", "std-io/reopen", "std-io/read-back"]),
+                &|rep: &mut harness::report::Report| {
+                    add_stdio(rep, "C02", &tier, 0, &["std-io/semantics", "std-io/content", "std-io/panic", "std-io/unmount", "std-io/remount", "std-io/reopen", "std-io/read-back"]);
+                    let (viols, n) = c02::size_limit_checks();
+                    for (sig, msg) in viols {
+                        rep.add(common::violation("C02", &sig, &msg, "s512-5GiB-size-limit"), serde_json::json!({"check": "C02", "size-limit": msg}));
+                    }
+                    if let Some(o) = rep.coverage.as_object_mut() {
+                        o.insert("size_limit_cases".into(), n.into());
+                    }
+                },
             ),
         },
         "C03" => explorer(prop, &tier, replay, c03::specs(&tier, prop), &c03::C03),
